@@ -713,6 +713,12 @@ def call_native_method(it, recv, name, args, kwargs, pc):
                 args = [real]
         elif name == "format":
             return do_format(it, recv, args, kwargs, pc)
+    if name == "fromkeys" and recv in (dict, collections.OrderedDict) and args and isinstance(args[0], (SymList, SymDict)):
+        d = SymDict(ordered=recv is collections.OrderedDict)
+        val = args[1] if len(args) > 1 else None
+        for pres, k in it.iter_items(args[0], fr, pc):
+            symdict_set(it, d, k, val, vc.c_and(pc, pres) if pc is not vc.CT else pres)
+        return d
     # a registered override for (type, method)?
     ov = it.native_overrides.get((type(leaf0), name))
     if ov is not None:
@@ -852,6 +858,21 @@ def symlist_method(it, lst, name, args, kwargs, pc):
         if name == "add" and not getattr(lst, "origin", None) == "set":
             it.raise_exc(pc, AttributeError("'list' object has no attribute 'add'"))
             return UNBOUND
+        if name == "add":
+            # set semantics: the element is inserted unless an equal element (equal hash and
+            # __eq__) is already there
+            x = args[0]
+            hx = bi_hash(it, [x], {}, pc)
+            dup = vc.CF
+            for p, e in list(lst.elems):
+                if vc.c_is_false(vc.c_and(pc, p)):
+                    continue
+                he = bi_hash(it, [e], {}, pc)
+                same_hash = it.truth(it.compare(ast.Eq, he, hx, fr, pc), fr, pc)
+                same = it.truth(it.compare(ast.Eq, e, x, fr, pc), fr, pc)
+                dup = vc.c_or(dup, vc.c_and(p, vc.c_and(same_hash, same)))
+            symlist_append(it, lst, x, vc.c_and(it.live(fr, pc), vc.c_not(dup)))
+            return None
         symlist_append(it, lst, args[0], pc)
         return None
     if name == "extend":
